@@ -40,8 +40,12 @@ def gen(rng, tier, idx):
     for t in range(nth):
         g.emit(t, "OHx", "now", tf.i32(t, 0).hex() + "0000000000000000")
         for _ in range(r.choice([0, 3, 10, 30])):
-            a = r.weighted([("emit", 60), ("jumbo", 15), ("flush", 15), ("attrflush", 10)])
-            if a == "emit":
+            a = r.weighted([("emit", 60), ("jumbo", 15), ("flush", 15), ("attrflush", 10), ("nearcap", 4 if variant == "small" else 0)])
+            if a == "nearcap":
+                # a jumbo event that leaves no room for the flush markers: the automatic flush takes the rarely
+                # used "make room" path (two flushes in a row)
+                g.jumbo(t, "OB.", "now", cap - 16 - r.randint(1, 40))
+            elif a == "emit":
                 g.emit(t, "OB.", "now", r.choice([0, 2, 8, 16]))
             elif a == "jumbo":
                 g.jumbo(t, "OB.", "now", r.choice([0, 10, 200]))
@@ -214,13 +218,16 @@ def run(case, ctx):
                     plan.knobs["diskfull_from"] = diskfull
                     out = rt.run_plan(ctx, plan, d, variant=case["variant"])
                     info["evals"] += 1
-                    if out.hist.end != "abort":
+                    if out.hist.end not in ("abort", "done"):
                         continue
-                    kind = "abort-after:%s@%s" % (name, s.call)
+                    # "done": the runtime carried on after the fault; a kill any time later (here: after the last
+                    # step) finds this directory
+                    kind = "%s-after:%s@%s" % ("abort" if out.hist.end == "abort" else "survived", name, s.call)
                     info["faults"][kind] = info["faults"].get(kind, 0) + 1
                     hashes.append(ihash([info["ihash"], s.k, name]))
                     bad = examine(ctx, out, plan, case, truth, out.hist.steps, 10 ** 9, None, info,
-                                  what="fault %s at step %d (%s %s) made the runtime abort" % (name, s.k, s.call, s.path))
+                                  what="fault %s at step %d (%s %s) %s" % (name, s.k, s.call, s.path, "made the runtime abort" if out.hist.end == "abort"
+                                                                                 else "was survived and the process was killed after its last step"))
                     if bad is not None:
                         bad["det"] = bad["detail"].split("\n--- tool stderr")[0]
                         if bad["vclass"] == "finished-before-data-in-place":
